@@ -1,0 +1,39 @@
+//! Verification hook (only with `--cfg veryl_verif`): a thread-local,
+//! append-only log of every `(Doc, RenderOpts, Rendered)` that passes through
+//! `render_inner`, so an external monitor can judge exactly the documents the
+//! emitter and formatter build.  Off unless `enable(true)` is called.
+
+use crate::doc::Doc;
+use crate::render::{RenderOpts, Rendered};
+use std::cell::{Cell, RefCell};
+
+pub struct RenderRecord {
+    pub doc: Doc,
+    pub opts: RenderOpts,
+    pub rendered: Rendered,
+}
+
+thread_local! {
+    static ENABLED: Cell<bool> = const { Cell::new(false) };
+    static LOG: RefCell<Vec<RenderRecord>> = const { RefCell::new(Vec::new()) };
+}
+
+pub fn enable(on: bool) {
+    ENABLED.with(|e| e.set(on));
+}
+
+pub fn take() -> Vec<RenderRecord> {
+    LOG.with(|l| std::mem::take(&mut *l.borrow_mut()))
+}
+
+pub(crate) fn record(doc: &Doc, opts: &RenderOpts, rendered: &Rendered) {
+    if ENABLED.with(|e| e.get()) {
+        LOG.with(|l| {
+            l.borrow_mut().push(RenderRecord {
+                doc: doc.clone(),
+                opts: opts.clone(),
+                rendered: rendered.clone(),
+            })
+        });
+    }
+}
